@@ -202,13 +202,20 @@ def _sfs_bnl_core(data, sorted_idx, offsets, n_total_groups, result_mask):
             continue
 
         # General case: SFS + block BNL (block size 16)
-        for i in range(n):
-            s = 0.0
-            for kk in range(dv):
-                s += local[i, kk]
-            sums_buf[i] = s
+        # Sort key: sum of per-column dense ranks. It is an exact integer and
+        # strictly smaller for a row that dominates another one, so no row can
+        # be dominated by a row that is processed after it (a float sum can tie
+        # or absorb small terms, e.g. 1e8 + 2 == 1e8 + 1 in float32, or inf).
+        rank_sums = np.zeros(n, dtype=np.int64)
+        for kk in range(dv):
+            col_order = np.argsort(local[:n, kk], kind="mergesort")
+            rank = 0
+            for t in range(n):
+                if t > 0 and local[col_order[t], kk] != local[col_order[t - 1], kk]:
+                    rank += 1
+                rank_sums[col_order[t]] += rank
 
-        order = np.argsort(sums_buf[:n], kind="mergesort")
+        order = np.argsort(rank_sums, kind="mergesort")
 
         n_blk = (n >> 4) + 1
         for b in range(n_blk):
